@@ -208,10 +208,22 @@ end
 section
 variable (env : Env)
 
+/-- Which Go values denote *null* in a nullable union (C02): a nil pointer, a pointer chain ending in
+nil, an invalid `null.*` wrapper — also behind a pointer —, a zero omitempty field, and (the
+library's convention for `time.Time`) the zero time in a direct field. Written from the property
+statement; it deliberately does not call `PointerCodec.Omit`'s model for the pointer cases. -/
+def specNull (env : Env) : Codec → GoVal → Bool
+  | .pointer _, .ptr none => true
+  | .pointer (.pointer c), .ptr (some x) => specNull env (.pointer c) x
+  | .pointer (.nullw _), .ptr (some (.nullw valid _)) => !valid
+  | .pointer _, _ => false
+  | c, g => omits env c g
+
 mutual
 /-- `toAvro c g`: the Avro datum that `write c g` has to encode. For a nullable union the branch
-is null exactly when the codec's `Omit` holds (nil pointer, invalid wrapper, zero omitempty field). -/
-def toAvro : Nat → Codec → GoVal → Option Value
+is null exactly when `nullp` holds: `specNull env` for the specification's reading (C02),
+`omits env` for the code's own notion. -/
+def toAvro (nullp : Codec → GoVal → Bool) : Nat → Codec → GoVal → Option Value
   | 0, _, _ => none
   | fuel + 1, c, g =>
     match c, g with
@@ -224,18 +236,18 @@ def toAvro : Nat → Codec → GoVal → Option Value
     | .bytes _, .bytes bs => some (.bytes bs)
     | .string _, .str bs => some (.bytes bs)
     | .fixed _, .fixed bs => some (.bytes bs)
-    | .array item _, .slice items => (toAvroItems fuel item items).map .array
-    | .map val _, .map _ ks vs => (toAvroItems fuel val vs).map (.map ks)
+    | .array item _, .slice items => (toAvroItems nullp fuel item items).map .array
+    | .map val _, .map _ ks vs => (toAvroItems nullp fuel val vs).map (.map ks)
     | .pointer c', .ptr none =>
-      match c' with
+      match Codec.stripPtr c' with
       | .array _ _ => some (.array [])
       | .map _ _ => some (.map [] [])
       | _ => none
-    | .pointer c', .ptr (some x) => toAvro fuel c' x
-    | .record _ codecs targets, .struct fs => (toAvroFields fuel codecs targets fs).map .record
+    | .pointer c', .ptr (some x) => toAvro nullp fuel c' x
+    | .record _ codecs targets, .struct fs => (toAvroFields nullp fuel codecs targets fs).map .record
     | .unionOne c' nonNull, g =>
-      if omits env c' g then some (.union (1 - nonNull) .null)
-      else (toAvro fuel c' g).map (.union nonNull)
+      if nullp c' g then some (.union (1 - nonNull) .null)
+      else (toAvro nullp fuel c' g).map (.union nonNull)
     | .unionNullString o nonNull, .str bs =>
       if o && bs.isEmpty then some (.union (1 - nonNull) .null)
       else some (.union nonNull (.bytes bs))
@@ -255,22 +267,22 @@ def toAvro : Nat → Codec → GoVal → Option Value
       | _, _ => none
     | _, _ => none
 
-def toAvroItems : Nat → Codec → List GoVal → Option (List Value)
+def toAvroItems (nullp : Codec → GoVal → Bool) : Nat → Codec → List GoVal → Option (List Value)
   | 0, _, _ => none
   | _ + 1, _, [] => some []
   | fuel + 1, c, g :: gs =>
-    match toAvro fuel c g, toAvroItems fuel c gs with
+    match toAvro nullp fuel c g, toAvroItems nullp fuel c gs with
     | some v, some vs => some (v :: vs)
     | _, _ => none
 
-def toAvroFields : Nat → List Codec → List (Option Nat) → List GoVal → Option (List Value)
+def toAvroFields (nullp : Codec → GoVal → Bool) : Nat → List Codec → List (Option Nat) → List GoVal → Option (List Value)
   | 0, _, _, _ => none
   | _ + 1, [], _, _ => some []
   | fuel + 1, c :: cs, some i :: ts, fs =>
     match fs[i]? with
     | none => none
     | some g =>
-      match toAvro fuel c g, toAvroFields fuel cs ts fs with
+      match toAvro nullp fuel c g, toAvroFields nullp fuel cs ts fs with
       | some v, some vs => some (v :: vs)
       | _, _ => none
   | _ + 1, _ :: _, _, _ => none
